@@ -193,6 +193,7 @@ type rtime struct {
 	twins    map[<-chan struct{}]*ctxNode
 	cands    []cand
 	logs     []string
+	quiesce  func()
 }
 
 var (
@@ -340,6 +341,10 @@ func (r *rtime) schedule() *thread {
 		if c.timer != nil {
 			r.fireTimer(c.timer)
 		} else {
+			if len(cands) == 1 && r.quiesce != nil {
+				// nothing but the clock can move: a quiescent instant
+				r.quiesce()
+			}
 			r.advanceClock()
 		}
 	}
@@ -472,6 +477,12 @@ func ThreadID() int {
 	}
 	return rt.cur.id
 }
+
+// OnQuiescence registers fn to be called at every quiescent instant — when
+// no thread can run, no timer is due and the clock is about to move. fn runs in
+// scheduler context: it may read harness and (through accessors) library state
+// and call Fail-free recording functions, but must not perform model operations.
+func OnQuiescence(fn func()) { rt.quiesce = fn }
 
 // NumThreads reports how many model threads have been created so far (ids are
 // assigned in creation order).
